@@ -77,3 +77,24 @@ def is_regex_literal(s, flag_chars='abcdefghijklmnopqrstuvwxyzABCDEFGHIJKLMNOPQR
             i += 1
         first = False
     return all(ch in flag_chars for ch in s[i + 1:])
+
+
+def strip_line_continuations(body):
+    """The characters of a string literal body with every LineContinuation (7.8.4: backslash + LineTerminatorSequence) removed.
+    Scans escape by escape, so an escaped backslash followed by something else is never mistaken for the start of a continuation."""
+    out = []
+    i = 0
+    n = len(body)
+    while i < n:
+        c = body[i]
+        if c == '\\' and i + 1 < n:
+            k = line_terminator_sequence_at(body, i + 1)
+            if k:
+                i += 1 + k           # the continuation contributes nothing
+                continue
+            out.append(body[i:i + 2])    # any other escape is kept as written
+            i += 2
+            continue
+        out.append(c)
+        i += 1
+    return ''.join(out)
